@@ -117,6 +117,128 @@ def _coq_ns(xs) -> str:
     return '[' + '; '.join(str(x) for x in xs) + ']%N'
 
 
+C_ALWAYS, C_MULTI, C_SINGLE = 0, 1, 2
+
+
+def _escape_pipeline(tree: ast.Module, inv_map: dict[str, str]) -> tuple[list[tuple[int, str, str, str]], dict[str, str]]:
+    """`escape_text(text, multiline)` as a list of steps `(condition, kind, a, b)` applied to the whole string in order:
+
+    * kind ``'sub'``: ``R.sub(_escape_matcher, text)`` where ``R`` is a module-level regex of the recognised table form;
+      ``a`` = its exclusion string (every other character of ESCAPES_INV is replaced by its table entry);
+    * kind ``'replace'``: ``text.replace(a, b)`` (Python semantics: non-overlapping, left to right, ``a`` non-empty);
+      ``a``/``b`` are string literals or ``ESCAPES_INV[<literal>]``;
+    * condition: always / only when ``multiline`` / only when not ``multiline`` (from ``A if multiline else B`` and from
+      ``if multiline:`` / ``if not multiline:`` statements).
+
+    Accepted statement forms: ``text = <expr>``, ``return <expr>``, ``if [not] multiline: <statements> [else: <statements>]``
+    (early returns inside branches included; every path must return); ``<expr>`` is the text variable or a ``sub`` /
+    ``replace`` call on an ``<expr>``.  Anything else raises TranslateError.  Whether the resulting pipeline is the per-character table substitution that the theorems
+    are about is NOT decided here: it is the instance obligation `escape_text_is_one_table_substitution_*`."""
+    e = _func(tree, 'escape_text')
+    argn = [a.arg for a in e.args.args]
+    if len(argn) != 2 or e.args.kwonlyargs or e.args.vararg or e.args.kwarg or e.args.posonlyargs:
+        raise TranslateError('escape_text: unrecognised signature')
+    tvar, mvar = argn
+    regs: dict[str, str] = {}
+
+    def regex(node: ast.expr) -> str:
+        if not isinstance(node, ast.Name):
+            raise TranslateError(f'tokenizer.py:{node.lineno}: escape_text: regex is not a module-level name: `{ast.unparse(node)}`')
+        if node.id not in regs:
+            regs[node.id] = _excl_of_regex(_top_assign(tree, node.id), node.id)
+        return regs[node.id]
+
+    def strval(node: ast.expr) -> str:
+        if isinstance(node, ast.Constant) and isinstance(node.value, str):
+            return node.value
+        if isinstance(node, ast.Subscript) and isinstance(node.value, ast.Name) and node.value.id == 'ESCAPES_INV' \
+                and isinstance(node.slice, ast.Constant) and isinstance(node.slice.value, str):
+            if node.slice.value not in inv_map:
+                raise TranslateError(f'tokenizer.py:{node.lineno}: escape_text: ESCAPES_INV[{node.slice.value!r}] does not exist')
+            return inv_map[node.slice.value]
+        raise TranslateError(f'tokenizer.py:{node.lineno}: escape_text: unrecognised string operand `{ast.unparse(node)}`')
+
+    def cond_of(test: ast.expr) -> int:
+        if isinstance(test, ast.Name) and test.id == mvar:
+            return C_MULTI
+        if isinstance(test, ast.UnaryOp) and isinstance(test.op, ast.Not) and isinstance(test.operand, ast.Name) and test.operand.id == mvar:
+            return C_SINGLE
+        raise TranslateError(f'tokenizer.py:{test.lineno}: escape_text: unrecognised condition `{ast.unparse(test)}`')
+
+    def both(c1: int, c2: int) -> int | None:
+        """Conjunction of two conditions; None = never."""
+        if c1 == C_ALWAYS:
+            return c2
+        if c2 == C_ALWAYS or c1 == c2:
+            return c1
+        return None
+
+    def steps_of(node: ast.expr, cond: int) -> list[tuple[int, str, str, str]]:
+        """Steps that compute `node` from the current value of the text variable."""
+        if isinstance(node, ast.Name) and node.id == tvar:
+            return []
+        if isinstance(node, ast.Call) and isinstance(node.func, ast.Attribute) and not node.keywords:
+            f = node.func
+            if f.attr == 'sub' and len(node.args) == 2 and isinstance(node.args[0], ast.Name) and node.args[0].id == '_escape_matcher':
+                inner = steps_of(node.args[1], cond)
+                if isinstance(f.value, ast.IfExp):
+                    c = cond_of(f.value.test)
+                    other = C_SINGLE if c == C_MULTI else C_MULTI
+                    out = list(inner)
+                    for cc, rx in ((c, f.value.body), (other, f.value.orelse)):
+                        k = both(cond, cc)
+                        if k is not None:
+                            out.append((k, 'sub', regex(rx), ''))
+                    return out
+                return inner + [(cond, 'sub', regex(f.value), '')]
+            if f.attr == 'replace' and len(node.args) == 2:
+                old, new = strval(node.args[0]), strval(node.args[1])
+                if not old:
+                    raise TranslateError(f'tokenizer.py:{node.lineno}: escape_text: str.replace with an empty pattern is not modelled')
+                return steps_of(f.value, cond) + [(cond, 'replace', old, new)]
+        raise TranslateError(f'tokenizer.py:{getattr(node, "lineno", e.lineno)}: escape_text: unrecognised expression `{ast.unparse(node)}`')
+
+    def neg(c: int) -> int:
+        return C_SINGLE if c == C_MULTI else C_MULTI
+
+    def block(stmts: list[ast.stmt], live: int | None) -> tuple[list[tuple[int, str, str, str]], int | None]:
+        """Steps of a statement list entered under condition `live`; second component: the condition under which control
+        falls out of its end (None = every path returned)."""
+        out: list[tuple[int, str, str, str]] = []
+        for st in stmts:
+            if live is None:
+                raise TranslateError(f'tokenizer.py:{st.lineno}: escape_text: statement after a return on every path')
+            if isinstance(st, ast.Return) and st.value is not None:
+                out += steps_of(st.value, live)
+                live = None
+            elif isinstance(st, ast.Assign) and len(st.targets) == 1 and isinstance(st.targets[0], ast.Name) and st.targets[0].id == tvar:
+                out += steps_of(st.value, live)
+            elif isinstance(st, ast.If):
+                c = cond_of(st.test)
+                lives = []
+                for cc, body in ((both(live, c), st.body), (both(live, neg(c)), st.orelse)):
+                    if cc is None:
+                        continue                      # dead branch
+                    s1, l1 = block(body, cc)
+                    out += s1
+                    if l1 is not None:
+                        lives.append(l1)
+                if not lives:
+                    live = None
+                elif len(lives) == 1:
+                    live = lives[0]
+                else:
+                    live = lives[0] if lives[0] == lives[1] else C_ALWAYS
+            else:
+                raise TranslateError(f'tokenizer.py:{st.lineno}: escape_text: unrecognised statement `{ast.unparse(st).splitlines()[0]}`')
+        return out, live
+
+    pipeline, live_end = block(_strip_doc(e), C_ALWAYS)
+    if live_end is not None:
+        raise TranslateError('escape_text: a path reaches the end of the body without `return <expr>`')
+    return pipeline, regs
+
+
 def casefold_table() -> list[tuple[int, list[int]]]:
     out = []
     for c in range(0x110000):
@@ -149,31 +271,16 @@ def translate() -> tuple[str, dict]:
     prefix = inv.value.values[0].value
     _expect(inv, '{char: f' + repr(prefix + '{sym}') + ' for sym, char in ESCAPES.items()}', 'ESCAPES_INV', inv.lineno)
 
-    # ---- the two regexes and which mode uses which
-    regs = {name: _excl_of_regex(_top_assign(tree, name), name) for name in ('ESCAPE_RE', 'ESCAPE_MULTILINE_RE')}
+    # ---- escape_text as a pipeline of whole-string steps (see _escape_pipeline)
     m = _func(tree, '_escape_matcher')
     mb = _strip_doc(m)
     if len(mb) != 1 or not isinstance(mb[0], ast.Return) or len(m.args.args) != 1:
         raise TranslateError('_escape_matcher: unrecognised body')
     _expect(mb[0].value, f'ESCAPES_INV[{m.args.args[0].arg}.group()]', '_escape_matcher', m.lineno)
-    e = _func(tree, 'escape_text')
-    eb = _strip_doc(e)
-    if len(eb) != 1 or not isinstance(eb[0], ast.Return):
-        raise TranslateError('escape_text: unrecognised body (expected a single return)')
-    r = eb[0].value
-    argn = [a.arg for a in e.args.args]
-    if len(argn) != 2 or e.args.kwonlyargs or e.args.vararg or e.args.kwarg:
-        raise TranslateError('escape_text: unrecognised signature')
-    if not (isinstance(r, ast.Call) and isinstance(r.func, ast.Attribute) and r.func.attr == 'sub'
-            and isinstance(r.func.value, ast.IfExp) and isinstance(r.func.value.body, ast.Name)
-            and isinstance(r.func.value.orelse, ast.Name)):
-        raise TranslateError(f'escape_text: unrecognised return expression `{ast.unparse(r)}`')
-    r_true, r_false = r.func.value.body.id, r.func.value.orelse.id
-    _expect(r, f'({r_true} if {argn[1]} else {r_false}).sub(_escape_matcher, {argn[0]})', 'escape_text', e.lineno)
-    if r_true not in regs or r_false not in regs:
-        raise TranslateError('escape_text: uses a regex other than ESCAPE_RE / ESCAPE_MULTILINE_RE')
-    excl_multi = [ord(c) for c in regs[r_true]]
-    excl_single = [ord(c) for c in regs[r_false]]
+    inv_map: dict[str, str] = {}
+    for sym, ch in esc_table:
+        inv_map[chr(ch)] = prefix + chr(sym)          # dict comprehension: a later symbol for the same character wins
+    pipeline, regs = _escape_pipeline(tree, inv_map)
 
     # ---- BARE_DISALLOWED
     b = _top_assign(tree, 'BARE_DISALLOWED')
@@ -246,9 +353,12 @@ def translate() -> tuple[str, dict]:
         f'Definition esc_table : list (N * N) := {_coq_pairs(esc_table)}.',
         '(* literal prefix of the replacement text in ESCAPES_INV *)',
         f'Definition esc_prefix : list N := {_coq_ns(ord(c) for c in prefix)}.',
-        '(* characters excluded from ESCAPE_RE (single-line mode) / ESCAPE_MULTILINE_RE (multiline=True), as used by escape_text *)',
-        f'Definition esc_excl_single : list N := {_coq_ns(excl_single)}.',
-        f'Definition esc_excl_multi : list N := {_coq_ns(excl_multi)}.',
+        '(* escape_text(text, multiline) as whole-string steps applied in order: (condition, kind, a, b);',
+        '   condition 0 = always, 1 = only if multiline, 2 = only if not multiline;',
+        '   kind 0 = R.sub(_escape_matcher, text) with a = characters of ESCAPES_INV the regex R leaves alone,',
+        '   kind 1 = text.replace(a, b) *)',
+        'Definition esc_pipeline : list (N * N * list N * list N) := ['
+        + '; '.join(f'({c}, {0 if k == "sub" else 1}, {_coq_ns(map(ord, a))}, {_coq_ns(map(ord, b))})' for c, k, a, b in pipeline) + '].',
         f'Definition bare_disallowed : list N := {_coq_ns(bare)}.',
         '(* _OPERATORS: (character, Token value) *)',
         f'Definition operators : list (N * N) := {_coq_pairs(ops.items())}.',
@@ -265,7 +375,7 @@ def translate() -> tuple[str, dict]:
     lines.append('')
 
     side.update(escapes=[[chr(s), chr(c)] for s, c in esc_table], esc_prefix=prefix,
-                excl_single=regs[r_false], excl_multi=regs[r_true], regex_for_multiline=r_true, regex_for_single=r_false,
+                escape_pipeline=[{'when': ['always', 'multiline', 'not multiline'][c], 'kind': k, 'a': a, 'b': b} for c, k, a, b in pipeline], regexes=regs,
                 bare_disallowed=''.join(chr(c) for c in bare), operators={chr(k): v for k, v in ops.items()},
                 token_values=tok_vals, has_value=has_value, option_defaults=defaults, digests=digests,
                 casefold_entries=len(cf), pyx_twin=_scan_pyx())
